@@ -12,16 +12,21 @@ COMMON_ASSUMPTIONS = [
     '(lemma L2 per divisor, 0<=a<2^32), X3 cryptodatahub InvalidValue message formatting stubbed',
     'CPython 3.12, CrossHair models of bytes/struct/int/codecs, z3 5.1 are trusted',
     'every counterexample is replayed natively (no CrossHair, no stubs) before it is reported',
+    'every CONFIRMED shard is cross-checked by 20 native runs of the same harness on concrete arguments drawn with '
+    'VERIF_SEED; a failing native run is a harness error (exit 3), never a violation',
 ]
 
 
 def write(prop, tier, seed, rows, concrete_rows, lemma_rows, violations, known_hits, harness_errors, wall,
           partial=False, extra_assumptions=()):
     decided = [r for r in rows if r['verdict'] in ('CONFIRMED', 'REFUTED', 'REFUTED-KNOWN')]
-    inconclusive = [r for r in rows if r['verdict'] in ('INCONCLUSIVE', 'VACUOUS', 'NOT-REPRODUCED', 'ERROR')]
+    inconclusive = [r for r in rows if r['verdict'] in ('INCONCLUSIVE', 'VACUOUS', 'NOT-REPRODUCED', 'ERROR',
+                                                        'DIFFERENTIAL-MISMATCH')]
     paths = sum(r.get('paths') or 0 for r in rows)
     queries = sum(r.get('solver_queries') or 0 for r in rows)
     replays = sum(1 for r in rows if 'replay' in r)
+    diff_runs = sum(r.get('differential_runs') or 0 for r in rows)
+    diff_nontrivial = sum(r.get('differential_nontrivial') or 0 for r in rows)
     samples = []
     for row in rows:
         if row['verdict'] in ('CONFIRMED', 'REFUTED-KNOWN') and len(samples) < 6:
@@ -40,7 +45,10 @@ def write(prop, tier, seed, rows, concrete_rows, lemma_rows, violations, known_h
         'coverage': {
             'states': max(paths, 1),
             'transitions': max(queries, 1),
-            'traces_validated_against_impl': replays,
+            'traces_validated_against_impl': replays + diff_runs,
+            'native_replays_of_counterexamples': replays,
+            'differential_native_runs': diff_runs,
+            'differential_native_runs_reaching_the_assertion': diff_nontrivial,
             'samples': samples,
             'explanation': 'bounded symbolic execution: states = execution paths explored by CrossHair over all '
                            'shards, transitions = z3 check() calls; each shard decides its postcondition for every '
